@@ -30,7 +30,7 @@ def main(tier):
             if ident_ok == 0:
                 raise vlib.Inconclusive("no authentic message was readable: C06 exercised vacuously")
         run.cov["distinct_nontrivial"] = len({(x["et"], x["plainlen"], x["class"]) for x in lines if x["class"] != "identity"})
-        run.cov["rule"] = ("per etype x plaintext length (quick: 0,1,15,16,17,31,32,64; thorough: 0..64) one library ciphertext; "
+        run.cov["rule"] = ("per etype x plaintext length (quick: 0,1,15,16,17,31,32,64; thorough: 0..100 and ten longer ones up to 1024) one library ciphertext; "
                            "mutation classes applied exhaustively: every single-bit flip, every truncation, 1..17 appended bytes, "
                            "all block swaps, every other usage of the 23-usage set, unrelated keys and one-bit key changes. "
                            "evaluations = decryptions attempted; distinct = (etype, length, class) cells other than identity")
